@@ -7,7 +7,8 @@
 From Coq Require Import List Arith Bool.
 From HV Require Import Spec.ByteVecSpec Spec.MemSpec Model.ByteVecModel Model.ByteVecHeapModel
   Model.MemOpsModel Proofs.ByteVecProofs Proofs.ByteVecSugarProofs Proofs.ByteVecHeapProofs
-  Proofs.MemOpsProofs.
+  Proofs.MemOpsProofs Model.ChunkViewModel Gen.GenChunkView Proofs.ChunkViewProofs.
+From Coq Require Import ZArith.
 Import ListNotations.
 
 (* ---- the main theorem: EVERY sequence of operations (append, set_byte, set_slice,
@@ -429,3 +430,121 @@ Example C07_isolation_nonvacuous :
     ~ creach nat h1 (oref 2) 0 /\
     h_flat nat 8 h' 2 = Some [3; 4] /\ h_flat nat 8 h' 0 = Some [3; 9].
 Proof. exact isolation_example. Qed.
+
+(* ---- chunk views: a Chunk is a (data, start, length) window of a backing value of ANY size.
+   conc_* / symb_* / chunk_getitem are REGENERATED from ConcreteChunk / SymbolicChunk / Chunk in
+   bytevec.py on every run (Gen/GenChunkView.v, every branch translated): whatever fast path the
+   code takes, depending on the size of the data, of the chunk, of the slice or on the offsets,
+   it has to denote the plain window.  vbytes v = the bytes of the window (spec side). ---- *)
+Theorem C07_chunk_slice :
+  forall (B : Type) (sym : bool) (v : view B) (a b : Z),
+    vwf v -> (0 <= a)%Z -> (a <= b)%Z -> (b <= vlen v)%Z ->
+    exists w, (if sym then symb_slice B else conc_slice B) v a b = Some w /\
+              vwf w /\ vlen w = (b - a)%Z /\ vbytes w = sub (vbytes v) a (b - a).
+Proof. intros B sym. exact (leaf_slice_ok B sym). Qed.
+Print Assumptions C07_chunk_slice.
+
+(* a view of a view is the view at the sum of the offsets -- for all sizes *)
+Theorem C07_chunk_slice_slice :
+  forall (B : Type) (sym : bool) (v w1 w2 : view B) (a b x y : Z),
+    let f := if sym then symb_slice B else conc_slice B in
+    vwf v -> (0 <= a)%Z -> (a <= b)%Z -> (b <= vlen v)%Z ->
+    (0 <= x)%Z -> (x <= y)%Z -> (y <= b - a)%Z ->
+    f v a b = Some w1 -> f w1 x y = Some w2 ->
+    exists w3, f v (a + x)%Z (a + y)%Z = Some w3 /\ vlen w2 = vlen w3 /\ vbytes w2 = vbytes w3 /\
+               vbytes w2 = sub (vbytes v) (a + x) (y - x).
+Proof.
+  intros B sym v w1 w2 a b x y f.
+  exact (slice_slice B f (leaf_slice_ok B sym) v a b x y w1 w2).
+Qed.
+Print Assumptions C07_chunk_slice_slice.
+
+(* any stack of windows c[a1:b1][a2:b2]...[an:bn] *)
+Theorem C07_chunk_nesting :
+  forall (B : Type) (sym : bool) (ws : list (Z * Z)) (v : view B),
+    vwf v -> nest_ok (vlen v) ws ->
+    exists w, nest_slice (if sym then symb_slice B else conc_slice B) v ws = Some w /\ vwf w /\
+              vlen w = nest_len (vlen v) ws /\
+              vbytes w = sub (vbytes v) (nest_off ws) (nest_len (vlen v) ws) /\
+              (0 <= nest_off ws)%Z /\ (nest_off ws + nest_len (vlen v) ws <= vlen v)%Z.
+Proof. intros B sym. exact (nest_correct B _ (leaf_slice_ok B sym)). Qed.
+Print Assumptions C07_chunk_nesting.
+
+Theorem C07_chunk_get_byte :
+  forall (B : Type) (sym : bool) (v : view B) (k : Z),
+    vwf v ->
+    (if sym then symb_get_byte B else conc_get_byte B) v k =
+    if ((0 <=? k) && (k <? vlen v))%Z then Some (sub (vbytes v) k 1) else None.
+Proof. intros B sym. exact (leaf_get_byte_ok B sym). Qed.
+Print Assumptions C07_chunk_get_byte.
+
+(* get_byte through any nesting reads the byte at the sum of the offsets *)
+Theorem C07_chunk_nest_get_byte :
+  forall (B : Type) (sym : bool) (ws : list (Z * Z)) (v w : view B) (k : Z),
+    vwf v -> nest_ok (vlen v) ws ->
+    nest_slice (if sym then symb_slice B else conc_slice B) v ws = Some w ->
+    (0 <= k < vlen w)%Z ->
+    (if sym then symb_get_byte B else conc_get_byte B) w k =
+    (if sym then symb_get_byte B else conc_get_byte B) v (nest_off ws + k)%Z.
+Proof.
+  intros B sym.
+  exact (nest_get_byte B _ _ (leaf_slice_ok B sym) (leaf_get_byte_ok B sym)).
+Qed.
+Print Assumptions C07_chunk_nest_get_byte.
+
+Theorem C07_chunk_unwrap :
+  forall (B : Type) (sym : bool) (v : view B),
+    vwf v -> (if sym then symb_unwrap B else conc_unwrap B) v = Some (vbytes v).
+Proof. intros B sym. exact (leaf_unwrap_ok B sym). Qed.
+Print Assumptions C07_chunk_unwrap.
+
+(* chunk[ks:ke] (the only way ByteVec slices a chunk): omitted start = 0, omitted stop = len,
+   out-of-range bounds raise IndexError, otherwise the window *)
+Theorem C07_chunk_getitem :
+  forall (B : Type) (sym : bool) (v : view B) (ks ke : option Z),
+    vwf v ->
+    let a := match ks with Some x => x | None => 0%Z end in
+    let b := match ke with Some x => x | None => vlen v end in
+    ((0 <= a <= vlen v)%Z /\ (0 <= b <= vlen v)%Z /\ (a <= b)%Z ->
+       exists w, chunk_getitem B (if sym then symb_slice B else conc_slice B) v ks ke = Some w /\
+                 vwf w /\ vlen w = (b - a)%Z /\ vbytes w = sub (vbytes v) a (b - a)) /\
+    (~ ((0 <= a <= vlen v)%Z /\ (0 <= b <= vlen v)%Z) ->
+       chunk_getitem B (if sym then symb_slice B else conc_slice B) v ks ke = None).
+Proof. intros B sym. exact (getitem_ok B _ (leaf_slice_ok B sym)). Qed.
+Print Assumptions C07_chunk_getitem.
+
+(* the Leaf branches of the hand-written ByteVec model ARE the regenerated chunk methods *)
+Theorem C07_model_leaf_slice :
+  forall (B : Type) (zero : B) (sym : bool) (d : list B) (s l a b : nat),
+    s + l <= length d -> a <= b -> b <= l ->
+    exists w, (if sym then symb_slice B else conc_slice B)
+                (MkView d (Z.of_nat s) (Z.of_nat l)) (Z.of_nat a) (Z.of_nat b) = Some w /\
+              vwf w /\
+              Z.of_nat (clen (csub B zero (Leaf sym d s l) a b)) = vlen w /\
+              cflat (csub B zero (Leaf sym d s l) a b) = vbytes w /\
+              cslice B zero (Leaf sym d s l) a b = [csub B zero (Leaf sym d s l) a b].
+Proof. intros B zero sym. exact (model_leaf_slice B zero sym). Qed.
+Print Assumptions C07_model_leaf_slice.
+
+Theorem C07_model_leaf_get_byte :
+  forall (B : Type) (zero : B) (sym : bool) (d : list B) (s l off : nat),
+    s + l <= length d -> off < l ->
+    (if sym then symb_get_byte B else conc_get_byte B)
+      (MkView d (Z.of_nat s) (Z.of_nat l)) (Z.of_nat off) = Some [cget B zero (Leaf sym d s l) off].
+Proof. intros B zero sym. exact (model_leaf_get_byte B zero sym). Qed.
+Print Assumptions C07_model_leaf_get_byte.
+
+Theorem C07_model_leaf_unwrap :
+  forall (B : Type) (zero : B) (sym : bool) (d : list B) (s l : nat),
+    s + l <= length d ->
+    (if sym then symb_unwrap B else conc_unwrap B) (MkView d (Z.of_nat s) (Z.of_nat l)) =
+    Some (snd (cunwrap (Leaf sym d s l))).
+Proof. intros B zero sym. exact (model_leaf_unwrap B zero sym). Qed.
+Print Assumptions C07_model_leaf_unwrap.
+
+(* a 3000-byte backing value, a view of a view of it, a word read through it *)
+Example C07_chunk_nonvacuous :
+  let d := List.map Z.of_nat (seq 0 3000) in
+  exists w, nest_slice (symb_slice Z) (MkView d 0 3000) [(100, 2900); (1000, 1032)]%Z = Some w /\
+            vbytes w = List.map Z.of_nat (seq 1100 32).
+Proof. vm_compute. eexists. split; reflexivity. Qed.
